@@ -234,12 +234,12 @@ func appliedEvents(cau chain.ApplyUpdate, walletAddress types.Address) (events [
 		fce := fced.V2FileContractElement.Move()
 
 		_, missed := fced.Resolution.(*types.V2FileContractExpiration)
-		if fce.V2FileContract.HostOutput.Address == walletAddress {
+		// a renewal pays its final outputs, which need not go to the
+		// addresses of the contract's own outputs: the created element decides
+		if sce, ok := siacoinElements[fce.ID.V2HostOutputID()]; !ok {
+			panic("missing siacoin element")
+		} else if sce.SiacoinOutput.Address == walletAddress {
 			outputID := fce.ID.V2HostOutputID()
-			sce, ok := siacoinElements[outputID]
-			if !ok {
-				panic("missing siacoin element")
-			}
 
 			addEvent(types.Hash256(outputID), EventTypeV2ContractResolution, EventV2ContractResolution{
 				Resolution: types.V2FileContractResolution{
@@ -251,12 +251,10 @@ func appliedEvents(cau chain.ApplyUpdate, walletAddress types.Address) (events [
 			}, sce.MaturityHeight)
 		}
 
-		if fce.V2FileContract.RenterOutput.Address == walletAddress {
+		if sce, ok := siacoinElements[fce.ID.V2RenterOutputID()]; !ok {
+			panic("missing siacoin element")
+		} else if sce.SiacoinOutput.Address == walletAddress {
 			outputID := fce.ID.V2RenterOutputID()
-			sce, ok := siacoinElements[outputID]
-			if !ok {
-				panic("missing siacoin element")
-			}
 
 			addEvent(types.Hash256(outputID), EventTypeV2ContractResolution, EventV2ContractResolution{
 				Resolution: types.V2FileContractResolution{
